@@ -32,7 +32,7 @@ def gen_hols(rng, lo, hi, nmax=60):
     """Holidays clustered around month ends / runs of consecutive days / random."""
     hols = set()
     n = rng.choice([0, 1, 3, 8, 20, rng.randint(0, nmax)])
-    while len(hols) < n:
+    while len(hols) < n and len(hols) < nmax + 40:
         r = rng.random()
         if r < 0.4:
             d0 = rng.randint(lo, hi)
@@ -42,7 +42,9 @@ def gen_hols(rng, lo, hi, nmax=60):
             hols.add(d)
         elif r < 0.7:
             d0 = rng.randint(lo, hi)
-            for j in range(rng.randint(2, 9)):
+            # mostly short runs; one run in five is a long shutdown (10-30 consecutive days), so that the nearest
+            # business day can lie more than two weeks away
+            for j in range(rng.randint(2, 9) if rng.random() < 0.8 else rng.randint(10, 30)):
                 hols.add(d0 + j)
         else:
             hols.add(rng.randint(lo, hi))
